@@ -1,3 +1,4 @@
+import json
 """Builder for hand-directed program families in the step format of spec/CircuitGen.tla (same identifiers discipline:
 fresh "n<k>" in creation order; a copy gets identifiers for its whole subtree in pre-order).  Used sparingly, for shapes
 deeper than TLC's bounded search reaches; the programs are judged by the same trace specification."""
@@ -77,6 +78,19 @@ class Prog:
         f, fm = self._copy(s)
         self._step(a='CopyCirc', c=f[s], id=f[s], s=s, fm=fm)
         return f[s]
+
+    def mask(self, c, masks):
+        """replace_operation on the flat circuit c: a new circuit; masks = list of dicts {t, kind, q, q2, chan}."""
+        new = self.fresh()
+        self.kids[new] = []
+        self.is_comp.add(new)
+        fm = []
+        for k in self.kids[c]:
+            n = self.fresh()
+            self.kids[new].append(n)
+            fm.append([k, n])
+        self._step(a='Mask', c=c, id=new, what=json.dumps(masks), fm=fm)
+        return new
 
     def act(self, a, c='', **kw):
         self._step(a=a, c=c, **kw)
